@@ -6,7 +6,7 @@ export GOFLAGS=-mod=mod GOPROXY=off GOSUMDB=off GOTOOLCHAIN=local GONOSUMDB='*' 
 GO=go1.26.8
 V=/verif
 SIM=$V/sim
-BUILD=$V/.build
+BUILD=${VERIF_BUILD_DIR:-$V/.build}
 mkdir -p "$BUILD" "$V/evidence" "$V/replays"
 
 world_of() {
